@@ -1,9 +1,10 @@
-from specs.common import run, ASSUME_COMMON
+from specs.common import run, memcheck, ASSUME_COMMON
 
 SPEC = {
     "runs": [
         # sequential histories against the metrics reference model M
         run("e1-histories", "c06_counter_conservation", "asan", 6000, 300000, need_lib=True),
+        memcheck("c06_counter_conservation", 300, 15000),
         # recorder threads racing collector threads, TSan + perturbation shim
         run("e2-record-vs-collect", "c06_counter_conservation", "tsan", 400, 30000, need_lib=True,
             params={"mode": "conc"}),
